@@ -50,7 +50,8 @@ CHECKS = {
         "budget": {"quick": 45, "thorough": 900},
         "min_histories": {"quick": 20, "thorough": 500},
         "rule": ("Seeded histories on one topic (1-8 partitions, growing and shrinking) and one consumer group with 1-6 member connections: join, leave, abrupt disconnect, reconnect, "
-                 "create/delete partitions, sends to all partitions, next + auto-commit polls without partition id by members in a seeded sequential order, then a drain. "
+                 "create/delete partitions, sends to all partitions, next + auto-commit polls without partition id by members in a seeded sequential order and in concurrent bursts of all members, "
+                 "polls by the single member of a second group on the same topic (whose structure and cursor must stay untouched by everything that happens to the first), then a drain. "
                  "evaluations = histories; non-trivial = messages were delivered to the group and membership or partition count changed in between; "
                  "distinct_nontrivial = distinct (cache class, partitions, members, collapsed event sequence)."),
         "assumptions": COMMON_ASSUMPTIONS + ["Members poll sequentially in a seeded order (the statement quantifies over poll orders, not over concurrent polls).",
